@@ -1,18 +1,14 @@
 package s0386
 
-type G3 struct {
-	F0x0x0x0 int32
-	F0x0x0x1 []int64
-}
-
 type G2 struct {
-	F0x0x0 []G3
+	F1x0x0 []int64
 }
 
 type G1 struct {
-	F0x0 []G2
+	F1x0 *G2
 }
 
 type T struct {
-	F0 []G1
+	F0 *int32
+	F1 G1
 }
